@@ -317,3 +317,16 @@ PROPS["C16"] = dict(
     trusted=COMMON_TRUST + ["identities evaluated at double precision with relative tolerance 1e-10"],
     assumptions=["one candidate per aggregate (the path the solvers use)"],
 )
+
+PROPS["C19"] = dict(
+    module="RaptorModel.Props.C19",
+    harnesses=["h_c19"],
+    configs=simple("h_c19", [1, 2, 3, 4], [1, 2, 3, 4, 5, 7, 8, 16]),
+    rule=("grids of 1-3 dimensions with unequal extents 1..5 (12 thorough; 6 in 3-D) and symmetric stencils with an arbitrary zero pattern, "
+          "sequential and distributed generator on every process count; Matrix Market: write_mm/read_mm/read_par_mm/write_par_mm round trips on "
+          "matrices with values 1e-12..1e12 of either sign, rectangular, empty rows, plus files with a symmetric header; PETSc binary "
+          "(big-endian) files read sequentially, on the default partition and on explicit random partitions. Non-trivial = more than one grid "
+          "point / at least one entry."),
+    trusted=COMMON_TRUST + ["libc printf/scanf of doubles: values compared to 4e-15 relative (16 printed digits)"],
+    assumptions=["number printing/parsing is libc's; the index/shape logic is what is modelled"],
+)
